@@ -74,6 +74,45 @@ pub fn exercise(ctx: &mut Ctx, mp: &MPos, b: &Board) {
                 n += 2;
             }
         }
+        // hand-built special-kind tuples of the side to move through the validator (it does unchecked
+        // square arithmetic that is only safe for what well-formedness admits)
+        {
+            use owlchess::moves::MoveKind;
+            let w = mp.white_to_move;
+            let pawn = cell(man(w, b'P'));
+            let king = cell(man(w, b'K'));
+            let (epf, ept, dbf, dbt, prf, prt, home) = if w { (4u8, 5u8, 1u8, 3u8, 6u8, 7u8, 0u8) } else { (3, 2, 6, 4, 1, 0, 7) };
+            for f in 0..8u8 {
+                for df in [-1i8, 0, 1] {
+                    let tf = f as i8 + df;
+                    if !(0..8).contains(&tf) {
+                        continue;
+                    }
+                    let tf = tf as u8;
+                    let mut tuples = vec![(MoveKind::PromoteQueen, pawn, sq(f, prf), sq(tf, prt)), (MoveKind::PromoteKnight, pawn, sq(f, prf), sq(tf, prt))];
+                    if df != 0 {
+                        tuples.push((MoveKind::Enpassant, pawn, sq(f, epf), sq(tf, ept)));
+                    } else {
+                        tuples.push((MoveKind::PawnDouble, pawn, sq(f, dbf), sq(f, dbt)));
+                    }
+                    for (k, c, from, to) in tuples {
+                        if let Ok(mv) = Move::new(k, c, coord(from), coord(to)) {
+                            let _ = mv.is_semilegal(b);
+                            let _ = mv.validate(b);
+                            let _ = mv.uci().into_move(b).map(|m2| m2.is_semilegal(b));
+                            n += 3;
+                        }
+                    }
+                }
+            }
+            for (k, tf) in [(MoveKind::CastlingKingside, 6u8), (MoveKind::CastlingQueenside, 2u8)] {
+                if let Ok(mv) = Move::new(k, king, coord(sq(4, home)), coord(sq(tf, home))) {
+                    let _ = mv.is_semilegal(b);
+                    let _ = mv.validate(b);
+                    n += 2;
+                }
+            }
+        }
         // text-driven entry points compute squares from characters and then index tables with them
         {
             let mut t = String::with_capacity(6);
